@@ -48,6 +48,8 @@ var c02stmts = []c02tpl{
 	{"o.n += s[1]", false}, {`m["k"] += o.n`, false}, {"o.s[1] = int(a)", false}, {"o.p.n = int(a)", false}, {"fm[0.5] = int(a)", false}, {"s = append(s, int(a))", false}, {"o.Add(int(a))", false},
 	// a field computed from ANOTHER field plus a constant (looks like the in-place increment window), stores into zero-state operands
 	{"o.q = o.n + 3", false}, {"o.q = o.n - 3", false}, {"o.n = o.q + 1", false}, {"o.p.n = o.n + 1", false}, {"o.q = o.q + 1", false}, {"o.q += 2", false}, {"o.q++", false}, {`nm["k"] = int(a)`, false}, {"ns[0] = int(a)", false}, {"no.n = int(a)", false}, {"nim[3] = int(a)", false}, {"ns = append(ns, int(a))", false}, {`sm["k"] = "v"`, false}, {"im[3] = int(a)", false}, {"im[3]++", false}, {"bs[1] = 300 - 45", false}, {"bs[1]++", false}, {"bs[1] += 200", false},
+	// failing stores and calls written over two lines (the reported line must not depend on fusion)
+	{"ns[\n\t0] = int(a)", false}, {"nm[\n\t\"k\"] = int(a)", false}, {"no.\n\tn = int(a)", false}, {"nim[\n\t3] += int(a)", false}, {"r = o.\n\tBoom(9)", false}, {"r = boom(\n\t9)", false}, {"r = no.\n\tGet(1)", false},
 }
 
 // neighbourhoods with a hole %E (an int-valued expression) or %S (a statement)
